@@ -62,7 +62,104 @@ def floors(tier):
 
 
 # ------------------------------------------------------------------ generation
+MULTI_COMBOS = [("dynamic", "static"), ("static", "dynamic"), ("dynamic", "dynamic"), ("dynamic", "static"), ("static", "static"), ("static", "dynamic")]
+MULTI_FAMILIES = [("exponential", "exponential"), ("powerlaw", "powerlaw"), ("exponential", "powerlaw"), ("logistic", "logistic"), ("gausspeak", "gausspeak"), ("gausspeak", "lorentz"), ("lorentz", "lorentz"), ("sinusoid", "sinusoid")]
+MONOTONE = ("exponential", "powerlaw", "logistic")
+
+
+def multi_names(case):
+    """parameter names of the multi-fit: union of the members' names in order of first appearance"""
+    names = []
+    for mbr in case["members"]:
+        for nm in Model.from_spec(mbr["spec"]["model"]).pnames:
+            if nm not in names:
+                names.append(nm)
+    return names
+
+
+def gen_fixed_limited(rng, pnames, defaults):
+    fixed, limited = {}, {}
+    if len(pnames) >= 2 and rng.random() < 0.35:
+        nm = pnames[int(rng.integers(0, len(pnames)))]
+        fixed[nm] = float(np.round(defaults[pnames.index(nm)] * rng.uniform(0.97, 1.03), 5))
+    if rng.random() < 0.45:
+        cand = [q for q in pnames if q not in fixed]
+        nm = cand[int(rng.integers(0, len(cand)))]
+        c = float(defaults[pnames.index(nm)])
+        w = abs(c) * 0.6 + 0.3
+        if rng.random() < 0.5:
+            # limits that cut the optimum off on one side (active limit)
+            off = (abs(c) * 0.03 + 0.02) * (1 if rng.random() < 0.5 else -1)
+            limited[nm] = [float(np.round(c + off, 4)), float(np.round(c + off + w, 4))] if off > 0 else [float(np.round(c + off - w, 4)), float(np.round(c + off, 4))]
+        else:
+            limited[nm] = [float(np.round(c - w, 4)), float(np.round(c + w, 4))]
+    return fixed, limited
+
+
+def gen_multi(rng, tier, k, shard):
+    """two xy / indexed members joined by MultiFit: same-named parameters are shared (one truth), every member declares its own sources;
+    per member either 'dynamic' (an x source or a source relative to the model: the covariance follows the parameters) or 'static'
+    (absolute y sources only); all four combinations, both orders"""
+    combo = MULTI_COMBOS[(k + shard) % len(MULTI_COMBOS)]
+    fams = MULTI_FAMILIES[int(rng.choice(len(MULTI_FAMILIES), p=[0.2, 0.15, 0.15, 0.15, 0.1, 0.1, 0.05, 0.1]))]
+    if rng.random() < 0.5:
+        fams = fams[::-1]
+    truth, defaults = {}, {}
+    members = []
+    for j, (fam, mode) in enumerate(zip(fams, combo)):
+        m0 = Model(fam)
+        for nm, d in zip(m0.pnames, m0.defaults):
+            if nm not in truth:
+                defaults[nm] = float(d)
+                truth[nm] = float(np.round(d * (1.0 + rng.uniform(-0.1, 0.1)) + rng.uniform(-0.02, 0.02), 6))
+        dyn = None
+        if mode == "dynamic":
+            dyn = "x" if rng.random() < 0.55 else "model-relative"
+        ftype = "xy" if dyn == "x" else str(rng.choice(["xy", "indexed"], p=[0.65, 0.35]))
+        order = list(range(len(m0.pnames)))
+        if rng.random() < 0.3:
+            order = [int(i) for i in rng.permutation(len(order))]  # the same model with another signature order
+        m = Model(fam, order=order, name="m%d_%s_model" % (j, fam), defaults=[defaults[m0.pnames[i]] for i in order])
+        npts = int(rng.integers(len(m.pnames) + 4, 14))
+        x = gen.gen_x(rng, npts, kind="increasing" if fam == "powerlaw" else None)
+        if fam == "powerlaw":
+            x = [abs(v) + 0.2 for v in x]
+        y = m.f(np.array(x), [truth[nm] for nm in m.pnames])
+        y = y + rng.normal(size=npts) * 0.04 * (np.abs(y).mean() + 0.1)
+        y = [float(np.round(v, 5)) for v in y]
+        cost = str(rng.choice(["chi2", "chi2", "chi2_pointwise", "nll_gaussian"]))
+        spec = {"type": ftype, "model": m.spec(), "cost": cost, "x": x, "minimizer": None, "dea": "nonlinear"}
+        spec["y" if ftype == "xy" else "data"] = y
+        ys = float(np.mean(np.abs(y)) + 0.3)
+        pre = "m%d" % j
+        setup = [gen.gen_source(rng, npts, ftype, pre + "e0", yscale=ys * 0.5, force={"axis": "y", "reference": "data", "kind": "simple", "shape": "vec", "relative": False, "corr": 0.0})]
+        if dyn == "x":
+            setup.append(["add_error", {"axis": "x", "err": float(np.round(rng.uniform(0.03, 0.12), 4)), "relative": False, "reference": str(rng.choice(["data", "model"])), "corr": float(rng.choice([0.0, 0.0, 0.6])), "name": pre + "e1"}])
+        elif dyn == "model-relative":
+            setup.append(["add_error", dict({"err": float(np.round(rng.uniform(0.03, 0.1), 4)), "relative": True, "reference": "model", "corr": float(rng.choice([0.0, 0.0, 0.3])), "name": pre + "e1"}, **({"axis": "y"} if ftype == "xy" else {}))])
+        elif rng.random() < 0.3:
+            setup.append(gen.gen_source(rng, npts, ftype, pre + "e1", yscale=ys * 0.4, force={"axis": "y", "reference": "data", "kind": "matrix", "relative": False}))
+        members.append({"spec": spec, "setup": setup, "mode": mode, "dynamic": dyn})
+    case = {"property": "C06", "kind": "multi", "members": members}
+    names = multi_names(case)
+    dvals = [defaults[nm] for nm in names]
+    fixed, limited = gen_fixed_limited(rng, names, dvals)
+    # the covariance of the first (frozen) pass is the one at the start values: start well away from the optimum where the family
+    # has a single basin
+    far = all(f in MONOTONE for f in fams) and rng.random() < 0.7
+    lo_, hi_ = (0.75, 1.3) if far else (0.93, 1.07)
+    start = {nm: float(np.round(d * rng.uniform(lo_, hi_), 5)) for nm, d in zip(names, dvals) if nm not in fixed}
+    for nm, (lo, hi) in limited.items():
+        if nm in start:
+            start[nm] = float(np.clip(start[nm], lo + 1e-3 * (hi - lo), hi - 1e-3 * (hi - lo)))
+    case.update({"fixed": fixed, "limited": limited, "start": start, "far_start": bool(far)})
+    return case
+
+
 def gen_case(rng, tier, idx, shard, nshards):
+    if idx % 4 == 1:
+        return gen_multi(rng, tier, idx // 4, shard)
+    idx = idx - (idx + 2) // 4  # the single-fit cases keep their own enumeration
     gi = idx * nshards + shard
     ftype = ["xy", "xy", "indexed", "hist", "unbinned", "xy"][gi % 6]
     dea = ["nonlinear", "iterative"][(gi // 6) % 2] if ftype != "unbinned" else "nonlinear"
@@ -94,21 +191,7 @@ def gen_case(rng, tier, idx, shard, nshards):
                 setup.append(gen.gen_source(rng, npts, ftype, "e1", yscale=ys * 0.4, force={"axis": "y", "reference": "data", "kind": "matrix", "relative": False}))
     spec["dea"] = dea
     m = Model.from_spec(spec["model"])
-    fixed, limited = {}, {}
-    if len(m.pnames) >= 2 and rng.random() < 0.35:
-        nm = m.pnames[int(rng.integers(0, len(m.pnames)))]
-        fixed[nm] = float(np.round(m.defaults[m.pnames.index(nm)] * rng.uniform(0.97, 1.03), 5))
-    if rng.random() < 0.45:
-        cand = [q for q in m.pnames if q not in fixed]
-        nm = cand[int(rng.integers(0, len(cand)))]
-        c = float(m.defaults[m.pnames.index(nm)])
-        w = abs(c) * 0.6 + 0.3
-        if rng.random() < 0.5:
-            # limits that cut the optimum off on one side (active limit)
-            off = (abs(c) * 0.03 + 0.02) * (1 if rng.random() < 0.5 else -1)
-            limited[nm] = [float(np.round(c + off, 4)), float(np.round(c + off + w, 4))] if off > 0 else [float(np.round(c + off - w, 4)), float(np.round(c + off, 4))]
-        else:
-            limited[nm] = [float(np.round(c - w, 4)), float(np.round(c + w, 4))]
+    fixed, limited = gen_fixed_limited(rng, list(m.pnames), list(m.defaults))
     # density parameters: keep widths positive by limits (well-posedness)
     if spec["type"] in ("hist", "unbinned"):
         for nm in m.pnames:
@@ -195,8 +278,51 @@ def ref_sigma(cost, p, free_idx):
     return np.sqrt(np.diag(C)), cond
 
 
+class MultiMember:
+    """two member fits joined by kafe2's MultiFit, with the reference objective of the joint fit: the sum of the members' reference
+    costs (each member owns its sources; nothing is shared but the parameters), over the union of the parameter names"""
+
+    def __init__(self, case, minimizer):
+        from kafe2.fit import MultiFit
+
+        self.members = [Member(m["spec"], m["setup"], minimizer=minimizer) for m in case["members"]]
+        self.names = multi_names(case)
+        self.idx = [[self.names.index(nm) for nm in mb.ref.model.pnames] for mb in self.members]
+        self.fit = MultiFit([mb.fit for mb in self.members], minimizer=minimizer)
+        self.ref = self
+        self.fid = None
+
+    def optimum(self):
+        d = {str(k): float(v) for k, v in zip(self.fit.parameter_names, self.fit.parameter_values)}
+        return np.array([d[nm] for nm in self.names], dtype=float)
+
+    def model_values(self, p):
+        p = np.asarray(p, dtype=float)
+        return np.concatenate([mb.ref.model_values(p[ix]) for mb, ix in zip(self.members, self.idx)])
+
+    def admissible(self, p):
+        p = np.asarray(p, dtype=float)
+        return all(mb.admissible(p[ix]) for mb, ix in zip(self.members, self.idx))
+
+    def cost(self, p):
+        p = np.asarray(p, dtype=float)
+        return float(sum(mb.cost(p[ix]) for mb, ix in zip(self.members, self.idx)))
+
+    def sync_from_fit(self):
+        p = self.optimum()
+        for mb, ix in zip(self.members, self.idx):
+            mb.ref.p = p[ix].copy()
+
+
+def optimum(mb):
+    """reported parameter values in the order of the reference objective"""
+    if isinstance(mb, MultiMember):
+        return mb.optimum()
+    return np.array(mb.fit.parameter_values, dtype=float)
+
+
 def run_backend(case, minimizer):
-    mb = Member(case["spec"], case["setup"], minimizer=minimizer)
+    mb = MultiMember(case, minimizer) if case.get("kind") == "multi" else Member(case["spec"], case["setup"], minimizer=minimizer)
     fit = mb.fit
     for nm, v in case["fixed"].items():
         fit.fix_parameter(nm, v)
@@ -211,10 +337,29 @@ def run_backend(case, minimizer):
 
 def run_case(ctx, case):
     ctx.reseed_legacy()
-    spec = case["spec"]
-    ctx.stratum(spec["type"])
-    ctx.stratum(spec.get("dea", "nonlinear"))
-    names = list(Model.from_spec(spec["model"]).pnames)
+    multi = case.get("kind") == "multi"
+    if multi:
+        spec = {"dea": "nonlinear"}
+        names = multi_names(case)
+        modes = [m["mode"] for m in case["members"]]
+        mix = "mixed" if len(set(modes)) == 2 else ("all-dynamic" if modes[0] == "dynamic" else "none-dynamic")
+        ctx.stratum("multi")
+        ctx.stratum("multi:" + mix)
+        if mix == "mixed":
+            ctx.stratum("multi:mixed:" + modes[0] + "-first")
+        if case.get("far_start"):
+            ctx.stratum("multi:far-start")
+        for m in case["members"]:
+            ctx.add_to_set("multi-member", "%s:%s:%s:%s" % (m["spec"]["type"], m["spec"]["model"]["family"], m["spec"]["cost"], m["dynamic"] or "static"))
+        if len(set(m["spec"]["model"]["family"] for m in case["members"])) == 2:
+            ctx.stratum("multi:partly-shared-parameters")
+        setup_all = [o for m in case["members"] for o in m["setup"]]
+    else:
+        spec = case["spec"]
+        ctx.stratum(spec["type"])
+        ctx.stratum(spec.get("dea", "nonlinear"))
+        names = list(Model.from_spec(spec["model"]).pnames)
+        setup_all = case["setup"]
     fixed, limited = case["fixed"], {k: tuple(v) for k, v in case["limited"].items()}
     if case.get("flat_start"):
         ctx.stratum("flat-start-correlated-x")
@@ -222,16 +367,16 @@ def run_case(ctx, case):
         ctx.stratum("fixed")
     if limited:
         ctx.stratum("limited")
-    has_x = any(gen.norm_axis(o[1].get("axis")) == "x" for o in case["setup"])
-    has_mrel = any(o[1].get("reference") == "model" and o[1].get("relative") for o in case["setup"])
+    has_x = any(gen.norm_axis(o[1].get("axis")) == "x" for o in setup_all)
+    has_mrel = any(o[1].get("reference") == "model" and o[1].get("relative") for o in setup_all)
     if has_x:
-        ctx.stratum("x-source")
+        ctx.stratum("multi:x-source" if multi else "x-source")
     if has_mrel:
-        ctx.stratum("model-relative-source")
+        ctx.stratum("multi:model-relative-source" if multi else "model-relative-source")
     iterative = spec.get("dea") == "iterative" and (has_x or has_mrel)
     results = {}
     for minimizer in ("iminuit", "scipy"):
-        ctx.op("do_fit")
+        ctx.op("multi.do_fit" if multi else "do_fit")
         try:
             results[minimizer] = run_backend(case, minimizer)
         except (np.linalg.LinAlgError, AssertionError, FloatingPointError):
@@ -254,7 +399,7 @@ def run_case(ctx, case):
     premature = {}
     stuck = {}
     for minimizer, mb in results.items():
-        p = np.array(mb.fit.parameter_values, dtype=float)
+        p = optimum(mb)
         if not np.all(np.isfinite(p)):
             ctx.discard("non-finite-optimum")
             return nontrivial
@@ -262,6 +407,8 @@ def run_case(ctx, case):
         # fixed untouched, limits respected
         for nm, v in fixed.items():
             ctx.eq("fixed-exact", float(p[names.index(nm)]), float(v), detail=d)
+            if multi:
+                ctx._count("fixed-exact(multi)")
         on_limit = {}
         for nm, (lo, hi) in limited.items():
             v = p[names.index(nm)]
@@ -365,6 +512,8 @@ def run_case(ctx, case):
                 lambda: dict(d, reference_cost_at_optimum=c0, lower_point=best_p, reference_cost_there=best, improvement=c0 - best, tolerance=tol, sigma_ref=sig_full, on_limit=on_limit),
                 key=(lambda: premature_scipy(case, results["scipy"], names, fixed, limited, tol)) if minimizer == "scipy" else (lambda: stuck_on_limit(case, results["iminuit"], names, fixed, limited, dict(on_limit), best_p, best, tol)),
             )
+            if multi:
+                ctx._count("local-minimum(multi, %s)" % mix)
             if best < c0 - tol:
                 premature[minimizer] = True
                 if minimizer == "iminuit" and on_limit:
@@ -372,8 +521,10 @@ def run_case(ctx, case):
             ctx.worst["improvement_found_" + minimizer] = max(ctx.worst.get("improvement_found_" + minimizer, 0.0), float(max(0.0, c0 - best)))
     # backends agree
     if len(sig_by) == 2:
-        pa = np.array(results["iminuit"].fit.parameter_values, dtype=float)
-        pb = np.array(results["scipy"].fit.parameter_values, dtype=float)
+        pa = optimum(results["iminuit"])
+        pb = optimum(results["scipy"])
+        if multi:
+            ctx._count("backends-agree(multi)")
         la, lb = on_limit_by["iminuit"], on_limit_by["scipy"]
         same_limits = set(la) == set(lb) and all(la[k] == lb[k] for k in la)
         if not same_limits:
@@ -424,7 +575,7 @@ def two_attractors(case, names, pa, pb, s):
         for minimizer, start, in (("iminuit", pb), ("scipy", pa)):
             c2 = dict(case, start={nm: float(v) for nm, v in zip(names, start) if nm not in case["fixed"]})
             mb = run_backend(c2, minimizer)
-            p2 = np.array(mb.fit.parameter_values, dtype=float)
+            p2 = optimum(mb)
             idx = [i for i, nm in enumerate(names) if nm not in case["fixed"] and s[i] > 0]
             if np.any(np.abs(p2 - start)[idx] > 0.1 * s[idx]):
                 return False
@@ -439,10 +590,10 @@ def premature_scipy(case, mb, names, fixed, limited, tol):
     (same backend, nothing else changed) lowers the reference cost by more than the tolerance."""
     try:
         cost = make_objective(mb, names, fixed, limited)
-        c0 = cost(np.array(mb.fit.parameter_values, dtype=float))
+        c0 = cost(optimum(mb))
         # signature 2: the line search ran into an infinite cost (typically at the corner of the limits) and scipy handed the
         # start point back: no free parameter moved although the gradient scipy itself reports there is far from zero
-        p_now = np.array(mb.fit.parameter_values, dtype=float)
+        p_now = optimum(mb)
         start = np.array([case["start"].get(nm, fixed.get(nm, np.nan)) for nm in names], dtype=float)
         res = mb.fit._fitter.minimizer._opt_result
         if res is not None and np.array_equal(p_now, start) and np.any(np.abs(np.asarray(res.jac, dtype=float)) > 1e-2):
@@ -458,7 +609,7 @@ def premature_scipy(case, mb, names, fixed, limited, tol):
             return "C06/scipy-backend-accepts-unconverged-result"
         # signature 1: calling do_fit() again (nothing else changed) continues to a lower cost
         mb.fit.do_fit()
-        c1 = cost(np.array(mb.fit.parameter_values, dtype=float))
+        c1 = cost(optimum(mb))
         if c1 < c0 - tol:
             return "C06/scipy-backend-accepts-unconverged-result"
     except Exception:
@@ -476,7 +627,7 @@ def stuck_on_limit(case, mb, names, fixed, limited, on_limit, best_p, best, tol)
         cost = make_objective(mb, names, fixed, limited)
         mb.fit.set_parameter_values(**{nm: float(best_p[names.index(nm)]) for nm in names if nm not in fixed})
         mb.fit.do_fit()
-        p2 = np.array(mb.fit.parameter_values, dtype=float)
+        p2 = optimum(mb)
         still_on = any(abs(p2[names.index(nm)] - lim) <= 1e-6 * max(1.0, abs(lim)) for nm, lim in on_limit.items())
         if cost(p2) <= best + 10 * tol and not still_on:
             return "C06/iminuit-stays-on-limit-it-was-started-next-to"
